@@ -60,7 +60,7 @@ TEXT = {
     "C13": {
         "technique": "TLA+ specs with the seven update messages as actions (authority x payload), transcribed validators (ValidCfg, ValidConfig) and invariants StoredParamsValid / CurrentPeriodExists / C13_Denom / OnlyGov / RejectedUnchanged; every update attempt (valid, one per validation rule broken, wrong signers) replayed through ValidateBasic + handler on the real application comparing accept/reject and the stored parameters",
         "level": "Model checking over update sequences and conformance of the real handlers on every enumerated attempt; the transcribed validators are thereby bound to the real Validate() on every payload tried.",
-        "note": "Bounds: 20 minter payloads x 2 message kinds x 3 authorities at any schedule time; 43 distributor attempts (4 message kinds) on 13 curated configurations; vesting denom updates with and without pools. Governance proposals themselves (x/gov) are not driven; messages are delivered with the governance authority string. TLC, the Json module and the harness projection are trusted.",
+        "note": "Bounds: 20 minter payloads x 2 message kinds x 3 authorities at any schedule time; 43 distributor attempts (4 message kinds) on 13 curated configurations; vesting denom updates with and without pools. In the module-level stages messages are delivered with the governance authority string; in the whole-application stages (chain MBT, chain trace) every other update and failed transaction goes through a real x/gov proposal (submit, deposit, vote by the bonded delegator, execution by gov's EndBlocker). TLC, the Json module and the harness projection are trusted.",
     },
     "C18": {
         "technique": "events are outputs of the model actions (act.minted, act.events per sub-distributor, per-pool withdraw events; MintEventIsDelta, EventsAddUp, C18_WithdrawEvents checked by TLC); the typed events of every real BeginBlocker / message are parsed and compared with the model and with the real balance deltas",
